@@ -185,9 +185,13 @@ func init() {
 	c05 := &Property{ID: "C05", Pkgs: []string{"db"}, Bounds: map[string]string{"secrets_per_state": "2 / 3", "tamper classes": "foreign KEK, DB spliced from another database, DEK spliced, context swap, arbitrary bytes as DB, arbitrary bytes as DEK"}}
 	for _, n := range []string{"Confidential", "Tamper", "KEKList", "KEKGet", "KEKPut", "KEKActivate", "KEKDeleteVersion", "KEKDelete", "AuditFile",
 		"ReopenedPut", "ReopenedActivate", "ReopenedDeleteVersion", "ReopenedDelete"} {
-		c05.Harnesses = append(c05.Harnesses, &HarnessSpec{Name: "verifHarnessC05" + n, Pkg: "db", Stubs: dbEnvStubs,
+		h := &HarnessSpec{Name: "verifHarnessC05" + n, Pkg: "db", Stubs: dbEnvStubs,
 			Params: map[string]int{"secrets": 2, "versions": 2}, ThoroughParams: map[string]int{"secrets": 3, "versions": 3},
-			ExpectReach: []string{"end"}, NoNative: envNote, Desc: "at rest: " + n})
+			ExpectReach: []string{"end"}, NoNative: envNote, Desc: "at rest: " + n}
+		if n == "KEKList" {
+			h.ThoroughParams = map[string]int{"secrets": 2, "versions": 3} // listing three symbolic names sorts them: thousands of orderings for no new behaviour
+		}
+		c05.Harnesses = append(c05.Harnesses, h)
 	}
 	propRegistry = append(propRegistry, c05)
 }
